@@ -8,7 +8,10 @@ package server
 
 import (
 	"context"
+	"crypto/tls"
 	"errors"
+	"io"
+	"net"
 	"sync"
 	"sync/atomic"
 	"testing"
@@ -30,7 +33,7 @@ type stallPlan struct {
 	After    string `json:"after"`
 }
 
-func runStallPlan(w *vh.Writer, n int, p stallPlan) {
+func runStallPlan(w *vh.Writer, n int, p stallPlan, cert *tls.Certificate) {
 	var mu sync.Mutex
 	emit := func(m map[string]any) {
 		mu.Lock()
@@ -39,7 +42,7 @@ func runStallPlan(w *vh.Writer, n int, p stallPlan) {
 		mu.Unlock()
 	}
 	base := libGoroutines()
-	emit(map[string]any{"ev": "reset", "stall": p.Stall, "shutdown": p.Shutdown, "after": p.After})
+	emit(map[string]any{"ev": "reset", "stall": p.Stall, "shutdown": p.Shutdown, "after": p.After, "tls": cert != nil})
 	ln := memnet.NewListener()
 	release := make(chan struct{})
 	var connects, terminates atomic.Int32
@@ -50,7 +53,11 @@ func runStallPlan(w *vh.Writer, n int, p stallPlan) {
 		emit(map[string]any{"ev": "handler-exit"})
 		return &payloads.ActivateResponsePayload{UniqueIdentifier: req.UniqueIdentifier}, nil
 	}))
-	srv := kmipserver.NewServer(ln, ex).
+	var lis net.Listener = ln
+	if cert != nil { // the same plan behind a TLS listener: the server does the handshake, the stall is that of the raw connection
+		lis = tls.NewListener(ln, &tls.Config{Certificates: []tls.Certificate{*cert}, MinVersion: tls.VersionTLS12})
+	}
+	srv := kmipserver.NewServer(lis, ex).
 		WithConnectHook(func(ctx context.Context) (context.Context, error) { connects.Add(1); return ctx, nil }).
 		WithTerminateHook(func(ctx context.Context) { terminates.Add(1); emit(map[string]any{"ev": "term-hook"}) })
 	served := make(chan error, 1)
@@ -62,7 +69,25 @@ func runStallPlan(w *vh.Writer, n int, p stallPlan) {
 	}
 	synctest.Wait()
 	var answered atomic.Bool
-	st := ttlv.NewStream(conn, -1)
+	var rw io.ReadWriteCloser = conn
+	if cert != nil {
+		tc := tls.Client(conn, &tls.Config{InsecureSkipVerify: true, MinVersion: tls.VersionTLS12})
+		hs := make(chan error, 1)
+		go func() { hs <- tc.Handshake() }()
+		synctest.Wait()
+		select {
+		case err := <-hs:
+			if err != nil {
+				emit(map[string]any{"ev": "problem", "what": "harness: TLS handshake: " + err.Error()})
+				return
+			}
+		default:
+			emit(map[string]any{"ev": "problem", "what": "harness: TLS handshake does not complete"})
+			return
+		}
+		rw = tc
+	}
+	st := ttlv.NewStream(rw, -1)
 	go func() {
 		var resp kmip.ResponseMessage
 		if st.Recv(&resp) == nil && len(resp.BatchItem) == 1 && resp.BatchItem[0].ResultStatus == kmip.ResultStatusSuccess {
@@ -170,11 +195,17 @@ func TestStall(t *testing.T) {
 		t.Fatal(err)
 	}
 	defer w.Close()
-	for n, p := range plans {
+	cert := selfSigned()
+	all := append(append([]stallPlan{}, plans...), plans...) // every plan twice: TLS-less, then behind a TLS listener
+	for n, p := range all {
+		var c *tls.Certificate
+		if n >= len(plans) {
+			c = &cert
+		}
 		done := make(chan struct{})
 		go func() {
 			defer close(done)
-			synctest.Test(t, func(t *testing.T) { runStallPlan(w, n, p) })
+			synctest.Test(t, func(t *testing.T) { runStallPlan(w, n, p, c) })
 		}()
 		select {
 		case <-done:
